@@ -159,6 +159,26 @@ func gobRoundTrip(kind string, text []byte) (before, after []byte, err error, pa
 			return
 		}
 		after, err = json.Marshal(w)
+		if err != nil {
+			return
+		}
+		// transport does not touch the value that is sent, and sending it again gives the same copy
+		again, e2 := json.Marshal(v)
+		if e2 != nil || string(again) != string(before) {
+			err = fmt.Errorf("the ORIGINAL value encodes differently after it was gob-encoded: %s (before: %s)", clip(string(again)), clip(string(before)))
+			return
+		}
+		var buf2 bytes.Buffer
+		if err = gob.NewEncoder(&buf2).Encode(v); err != nil {
+			return
+		}
+		w2 := goKinds[kind]()
+		if err = gob.NewDecoder(&buf2).Decode(w2); err != nil {
+			return
+		}
+		if second, e3 := json.Marshal(w2); e3 != nil || string(second) != string(after) {
+			err = fmt.Errorf("a second transport of the same value gives another copy: %s (first: %s)", clip(string(second)), clip(string(after)))
+		}
 	})
 	return
 }
